@@ -240,15 +240,20 @@ func attributeHmac(s string, orig []byte, did int, keys []keyCand, ship bool) (s
 }
 
 // the HKDF expansion of every candidate (key, salt, info) is computed once
-var hkdfCache = map[[3]int][]byte{}
+var (
+	hkdfCache   = map[[3]int][]byte{}
+	hkdfCacheMu sync.Mutex // the attribution runs on the processing goroutines of the concurrent part
+)
 
 func hmacFramedCached(k keyCand, si, ii int, data []byte) string {
 	id := [3]int{k.id, si, ii}
+	hkdfCacheMu.Lock()
 	dk, ok := hkdfCache[id]
 	if !ok {
 		dk = hkdfSHA256(k.key, poolBytes("salt", si), poolBytes("info", ii), 32)
 		hkdfCache[id] = dk
 	}
+	hkdfCacheMu.Unlock()
 	m := hmac.New(sha256.New, dk)
 	m.Write(data)
 	return "hmac-sha256:" + base64.RawURLEncoding.EncodeToString(m.Sum(nil))
